@@ -180,15 +180,15 @@ func textW(s string, size float64, bold bool) float64 {
 // --- logical lines ---
 
 type lline struct {
-	x, y   float64 // left edge (LTR) or right edge (RTL), baseline
-	size   float64
-	bold   bool
-	words  []string
-	gaps   []float64 // gap before word i (gaps[0] unused)
-	rtl    bool
+	x, y    float64 // left edge (LTR) or right edge (RTL), baseline
+	size    float64
+	bold    bool
+	words   []string
+	gaps    []float64 // gap before word i (gaps[0] unused)
+	rtl     bool
 	natural bool // all gaps are one natural space (can be one fragment)
-	col    int
-	block  int
+	col     int
+	block   int
 }
 
 const hebrew = "אבגדהוזחטיכלמנסעפצקרשת"
